@@ -49,7 +49,7 @@ func stringConstsIn(fn *ssa.Function, pkgs ...string) map[string]bool {
 
 // C06: with a page URL, every link and media URL in the output is absolute.
 func C06(p *core.Program, r *core.Report) {
-	r.Explanation = "U1 (field-initialisation completeness): every webdoc element type with a PageURL field gets it assigned at every construction site (for Text: on the only path from TextBuilder.Build to the document, in flushBlock) from a *url.URL that is not nil. U2 (absolutise before serialise): in every GenerateOutput the serialised tree was, as the same SSA value, passed through the absolutiser(s) of its kind with the element's own PageURL on every path - or comes from a helper/field that always does so. U2 for Video includes srcset (a <source> may carry it). U3: the absolutisers cover a[href], area[href], video[poster], img|source|track|video[src] and [srcset] (constant extraction) and CreateAbsoluteURL's decision list is the documented one (pass-through for empty, no base, #, data:, javascript:, already absolute, unparseable; otherwise resolve against the base); every test and every outcome is on the value with the surrounding white space removed, strings.TrimSpace of the parameter - blanks around an attribute value are not part of the reference). U4: ContentImages are read from the same processed clones that are serialised, and the srcset writer and reader tokenise with the same regular expression. U5: the URL object used as base is never written (effect analysis). U6: Apply hands Options.OriginalURL itself, on every path, to the content extractor. U4 also: the compiled srcset pattern yields exactly the candidate URLs of fixed srcset values (density, width, width plus height descriptors, commas inside URLs). U7: ApplyForURL resolves against the supplied string parsed by url.Parse with no part rewritten (shared with C13-L7)."
+	r.Explanation = "U1 (field-initialisation completeness): every webdoc element type with a PageURL field gets it assigned at every construction site (for Text: on the only path from TextBuilder.Build to the document, in flushBlock) from a *url.URL that is not nil. U2 (absolutise before serialise): in every GenerateOutput the serialised tree was, as the same SSA value, passed through the absolutiser(s) of its kind with the element's own PageURL on every path - or comes from a helper/field that always does so. U2 for Video includes srcset (a <source> may carry it). U3 (reference = the value with the ASCII white space of the URL standard trimmed - strings.Trim with exactly tab, LF, FF, CR, space, not strings.TrimSpace): the absolutisers cover a[href], area[href], video[poster], img|source|track|video[src] and [srcset] (constant extraction) and CreateAbsoluteURL's decision list is the documented one (pass-through for empty, no base, #, data:, javascript:, already absolute, unparseable; otherwise resolve against the base); every test and every outcome is on the value with the surrounding white space removed, that trimmed value; data: and javascript: are recognised in any case, a scheme being case-insensitive). U4: ContentImages are read from the same processed clones that are serialised, the srcset writer and reader tokenise with one and the same constant pattern, and Document.GetImageURLs appends nothing but the answers of the elements' own URL readers. U5: the URL object used as base is never written (effect analysis). U6: Apply hands Options.OriginalURL itself, on every path, to the content extractor. U4 also: the compiled srcset pattern yields exactly the candidate URLs of fixed srcset values (density, width, width plus height descriptors, descriptors written with an exponent, commas inside URLs). U7: ApplyForURL resolves against the supplied string parsed by url.Parse with no part rewritten (shared with C13-L7)."
 	r.NotCovered = "RFC 3986 resolution itself (net/url), what the srcset regular expression matches, images inside Text elements (not produced by this port)."
 
 	// ---- U6: the base is the page URL the caller supplied
